@@ -161,7 +161,7 @@ CHECKS = {
     'C17': ('correspondence',
             'Lean 4 theorems: snapshot mirrors the map for every path (item, attribute, get) after any history, and '
             'is immutable; tied to tree.py by correspondence with identifier and non-identifier names, layered handles',
-            'Theorems in lean/DesperProofs/Props/C17.lean (C17_mirror, C17_immutable).',
+            'Theorems in lean/DesperProofs/Props/C17.lean (C17_mirror, C17_absent_names, C17_immutable).',
             'Trusted: Lean kernel; reading of the statement; correspondence harness (bounded by generators).  CPython dict / ChainMap semantics are modelled (heap model with typed stores), not verified.' + '  Names colliding with StaticResourceMap members are excluded (the statement\'s own exclusion).',
             '§5 C17'),
     'C08': ('correspondence',
